@@ -781,6 +781,14 @@ func (d *badgerNodeDB) Prune(version uint64) error {
 			continue
 		}
 
+		// An empty root has no nodes to traverse (a node with the empty hash is never stored).
+		if h := rootHash.Hash(); h.IsEmpty() {
+			if err = batch.Delete(rootNodeKeyFmt.Encode(&rootHash)); err != nil {
+				return err
+			}
+			continue
+		}
+
 		// Traverse the root and prune all items created in this version.
 		root := node.Root{
 			Namespace: d.namespace,
